@@ -50,6 +50,14 @@ def check(mir, files, op_lines, named_lines):
             v.append(("extent", f"{what}: offset {off} / length {ln} delimit {text[off:off + ln]!r} in the embedded text of {fn}; "
                                 f"line {line} is {lines[line - 1]!r}"))
             continue
+        # ... and at that line's own position (an earlier line may read the same, or begin with the same text)
+        tlines = text.split("\n")
+        if line <= len(tlines):
+            start = sum(len(x) + 1 for x in tlines[:line - 1])
+            if off != start:
+                at = text.count("\n", 0, off) + 1
+                v.append(("extent", f"{what}: offset {off} lies in line {at} of the embedded text of {fn}; line {line} begins at offset {start}"))
+                continue
         want = op_lines.get(opid) if opid is not None else named_lines.get(named)
         if want is not None and (fn, line) != want:
             v.append(("wrong-line", f"{what}: created by the statement at {want[0]}:{want[1]} ({files[want[0]].split(chr(10))[want[1] - 1].strip()[:60]!r}), "
